@@ -116,17 +116,36 @@ class gen_in_step(object):
 
     def __enter__(self):
         import facts
+        gen = os.path.join(THEORIES, 'Gen')
         self.lock = open(os.path.join(VERIF, 'work', '.coq.lock'), 'w')
-        fcntl.flock(self.lock, fcntl.LOCK_EX)
-        try:
-            facts.regenerate(os.path.join(THEORIES, 'Gen'))
-            if facts.CHANGED and self.targets:
-                try:
-                    _build_locked(self.targets)
-                except CoqBuildError:
-                    pass            # the evaluation then fails and is reported per case
-        finally:
+        for attempt in range(50):
+            # shared lock first: while it is held nobody can regenerate or rebuild (they need the exclusive lock)
             fcntl.flock(self.lock, fcntl.LOCK_SH)
+            ok = facts.in_step(gen)
+            if ok and self.targets and os.path.exists(os.path.join(COQ, 'Makefile')):
+                rc, _ = sh('make -q %s >/dev/null 2>&1' % ' '.join(self.targets), cwd=COQ, timeout=120)
+                ok = rc == 0 or any(not os.path.exists(os.path.join(THEORIES, 'Gen', g + '.v')) for g in
+                                    set(re.findall(r'Gen/([A-Za-z0-9_]+)\.vo', ' '.join(self.targets))))
+            if ok:
+                return self
+            # stale (another run, against another tree, rewrote the facts): release, rebuild under the exclusive lock, re-verify
+            fcntl.flock(self.lock, fcntl.LOCK_UN)
+            fcntl.flock(self.lock, fcntl.LOCK_EX)
+            try:
+                facts.regenerate(gen)
+                if self.targets:
+                    try:
+                        _build_locked(self.targets)
+                    except CoqBuildError:
+                        fcntl.flock(self.lock, fcntl.LOCK_UN)
+                        fcntl.flock(self.lock, fcntl.LOCK_SH)
+                        if facts.in_step(gen):
+                            return self     # in step, but a theory does not build on this tree: the evaluation reports it per case
+                        continue
+            finally:
+                pass
+            fcntl.flock(self.lock, fcntl.LOCK_UN)
+        fcntl.flock(self.lock, fcntl.LOCK_SH)
         return self
 
     def __exit__(self, *a):
@@ -259,11 +278,13 @@ def check_properties_file(pid, timeout=900):
     import facts
     text = re.sub(r'\(\*.*?\*\)', '', open(os.path.join(COQ, src_rel)).read(), flags=re.S)
     gens = sorted(set(re.findall(r'Gen\.([A-Za-z0-9_]+)', text)))
-    missing = [g for g in gens if not os.path.exists(os.path.join(THEORIES, 'Gen', g + '.v'))]
+    with gen_in_step([], targets=[]):          # the generated facts on disk are those of THIS run's tree while we look
+        missing = [g for g in gens if not os.path.exists(os.path.join(THEORIES, 'Gen', g + '.v'))]
+        errors_now = dict(facts.ERRORS)
     n_src = len(THEOREM_RE.findall(text))
-    if missing and facts.ERRORS:
+    if missing and errors_now:
         res['source_tie'] = {'status': 'unreadable', 'file': src_rel, 'obligations_not_attempted': n_src, 'generated_files_missing': missing,
-                             'translator_errors': {k: v.split('\n')[0][:300] for k, v in facts.ERRORS.items()}}
+                             'translator_errors': {k: v.split('\n')[0][:300] for k, v in errors_now.items()}}
         return res
     r2 = _check_one_properties_file(pid, src_rel, timeout)
     res['source_tie'] = {'status': 'checked' if r2['ok'] else 'broken', 'file': src_rel, 'obligations': r2['obligations'], 'discharged': r2['discharged']}
@@ -327,6 +348,9 @@ def coq_eval_bools(cases, imports, workdir, shard=300, timeout=1200, prelude='')
     parallel shards.  Returns dict key -> True/False/None (None: the shard did not evaluate) and the logs."""
     os.makedirs(workdir, exist_ok=True)
     keys = [k for k, _ in cases]
+    if len(set(keys)) != len(keys):
+        dup = sorted(set(k for k in keys if keys.count(k) > 1))[:5]
+        raise RuntimeError('duplicate case keys handed to coq_eval_bools (a later result would overwrite an earlier one): %r' % dup)
     shards = [cases[i:i + shard] for i in range(0, len(cases), shard)]
     files = []
     header = ''.join('%s\n' % l for l in imports) + 'Open Scope Z_scope.\nSet Printing Width 1000.\n' + \
